@@ -87,7 +87,7 @@ KindOrder == <<"headers", "parameters", "requestBodies", "responses", "schemas",
              \o (IF LoaderVisitsAll THEN <<"links">> ELSE <<>>)
 
 (* the root's own component entries of one kind, names sorted; "U" is the root's own reference when it sits in components *)
-NameOrder == <<"A", "Acc", "B", "C", "L", "Rec", "U", "V", "W", "X", "Y">>
+NameOrder == <<"A", "Acc", "B", "C", "Cat", "Dog", "H", "L", "Pet", "Rec", "U", "V", "W", "X", "Y", "Z", "e", "p", "schema">>     \* (sorted as sort.Strings does)
 RootEntries(u, pos, kind) ==
    LET named == {u.slots[i].name : i \in {i \in DOMAIN u.slots : u.slots[i].file = Root /\ u.slots[i].kind = kind}}
                 \cup (IF pos = "comp" /\ u.use.kind = kind THEN {"U"} ELSE {})
